@@ -23,6 +23,8 @@ RULE = (
     "exists; keys == sn values present in the output minus 'unknown'; seeking the output to entry[0]/entry[1] yields the first / "
     "last output record carrying that sn, and every record with that sn has an ordinal between them. Non-trivial = >=2 contigs "
     "present, or no 'unknown' record at all, or BGZF output with >=2 blocks. Distinct by SHA-1 of the case."
+    " Later additions: --outind spelling the default location differently (relative --outgaf, absolute "
+    "--outind); an index entry for the 'unknown' bucket is neither required nor forbidden."
 )
 ASSUMPTIONS = ["'between' is judged on record ordinals of the sorted file (offsets are opaque virtual offsets for BGZF)"]
 
